@@ -220,14 +220,15 @@ def yaxis_from_shape(
 
     if ndim != 3:
         raise ValueError("Can only work with 2-d or 3-d data")
+    if gbox is not None:
+        # geobox knows which two axes are spatial, guess only when it can not tell
+        yxs, syx = gbox.shape == shape[:2], gbox.shape == shape[1:]
+        if yxs != syx:
+            return ("YXS", 0) if yxs else ("SYX", 1)
+        if not yxs:
+            raise ValueError("Geobox and image shape do not match")
+
     if shape[-1] in (3, 4):  # YXS in RGB(A)
         return "YXS", 0
+    return ("SYX", 1) if gbox is None else ("YXS", 0)
 
-    if gbox is None:
-        return "SYX", 1
-    if gbox.shape == shape[:2]:  # YXS
-        return "YXS", 0
-    if gbox.shape == shape[1:]:  # SYX
-        return "SYX", 1
-
-    raise ValueError("Geobox and image shape do not match")
